@@ -33,6 +33,19 @@ Example C08_layout :
   HL = 8 /\ RA = 8 /\ PADDING = -1 /\ max_msg 1024 = BC_MAX_MSG_1024.
 Proof. repeat split; reflexivity. Qed.
 
+(* K1: the event codes from_command_id accepts (known_type) cover every discriminant the compiler assigned
+   (ResponseOnUnavailableCounter is accepted under its protocol code 0xF09 whatever its discriminant is) *)
+Example C08_known_types :
+  forallb known_type
+    [CMD_Padding; CMD_AddPublication; CMD_RemovePublication; CMD_AddExclusivePublication; CMD_AddSubscription;
+     CMD_RemoveSubscription; CMD_ClientKeepAlive; CMD_AddDestination; CMD_RemoveDestination; CMD_AddCounter;
+     CMD_RemoveCounter; CMD_ClientClose; CMD_AddRcvDestination; CMD_RemoveRcvDestination; CMD_TerminateDriver;
+     CMD_ResponseOnError; CMD_ResponseOnAvailableImage; CMD_ResponseOnPublicationReady; CMD_ResponseOnOperationSuccess;
+     CMD_ResponseOnUnavailableImage; CMD_ResponseOnExclusivePublicationReady; CMD_ResponseOnSubscriptionReady;
+     CMD_ResponseOnCounterReady; 3849; CMD_ResponseOnClientTimeout] = true /\
+  forallb (fun t => negb (known_type t)) [0; 15; 100; 101; 3840; 3851; -2] = true.
+Proof. split; reflexivity. Qed.
+
 (* The model refines the lossy channel on every history: same results, same lapped counts, same errors. *)
 Theorem C08_refines : forall cap k m hv c0 pre h,
   cap = 2 ^ k -> 5 <= k <= 30 -> hist_ok cap W64 c0 pre h ->
